@@ -513,3 +513,227 @@ def replay_table(model, obligation, table):
         return dict(confirmed=None, detail='no native table replay for %r' % table)
     return dict(confirmed=bool(bad), call='segno.consts.%s compared natively with the ISO transcription' % table,
                 detail='(cell, got, ISO): %r' % (bad[:3],))
+
+
+# ---------------------------------------------------------------- C06 replays
+from . import penalty as _pen
+
+
+def replay_scores(model, obligation, **kw):
+    m = model or {}
+    mat = m.get('matrix')
+    if not isinstance(mat, list):
+        return dict(confirmed=None, detail='matrix not stored in the witness (size > 25); re-run with the same VERIF_SEED to regenerate')
+    rows = [list(bytes.fromhex(r)) for r in mat]
+    size = len(rows)
+    got = encoder.mask_scores(tuple(bytearray(r) for r in rows), size, size)
+    want = (_pen.n1(rows), _pen.n2(rows), _pen.n3(rows), _pen.n4(rows))
+    return dict(confirmed=tuple(got) != want, call='encoder.mask_scores(<%dx%d matrix>)' % (size, size),
+                detail='real (N1,N2,N3,N4) = %r, ISO 7.8.3.1 = %r' % (tuple(got), want))
+
+
+def replay_mask_condition(model, obligation, is_micro, r, s):
+    fns = encoder.get_data_mask_functions(is_micro)
+    refs = _layout.MICRO_MASK_TO_QR if is_micro else tuple(range(8))
+    a0, b0 = int((model or {}).get('a', 0)), int((model or {}).get('b', 0))
+    bad = []
+    for a in (a0, 0, 1, 2, 5):
+        for b in (b0, 0, 1, 3, 7):
+            i, j = 6 * a + r, 6 * b + s
+            for k, (fn, ref) in enumerate(zip(fns, refs)):
+                if bool(fn(i, j)) != bool(_layout.mask_condition(ref, i, j)):
+                    bad.append((k, i, j, bool(fn(i, j))))
+    if len(fns) != len(refs):
+        bad.append(('number of patterns', len(fns)))
+    return dict(confirmed=bool(bad), call='get_data_mask_functions(%r)[k](i, j)' % is_micro, detail='(pattern, i, j, real value): %r' % (bad[:5],))
+
+
+def _function_matrix(version):
+    size = iso.symbol_size(version)
+    m = encoder.make_matrix(size, size)
+    encoder.add_finder_patterns(m, size, size)
+    encoder.add_alignment_patterns(m, size, size)
+    return m
+
+
+def replay_apply_mask(model, obligation, version, mask):
+    size = iso.symbol_size(version)
+    fm = _layout.function_map(version)
+    bad = []
+    for fill in (0, 1):
+        m = _function_matrix(version)
+        for (i, j), (kind, val) in fm.items():
+            if kind == _layout.DATA:
+                m[i][j] = fill
+        before = [bytes(r) for r in m]
+        try:
+            ret, out = encoder.find_and_apply_best_mask(m, size, size, mask)
+        except Exception as ex:
+            return dict(confirmed=True, detail='raised %r' % (ex,))
+        if ret != mask:
+            bad.append(('returned pattern', ret))
+        for (i, j), (kind, val) in fm.items():
+            want = before[i][j] ^ (1 if (kind == _layout.DATA and _layout.mask_condition_for(version, mask, i, j)) else 0)
+            if out[i][j] != want:
+                bad.append((i, j, out[i][j], want))
+    return dict(confirmed=bool(bad), call='find_and_apply_best_mask(<v%s symbol, data all 0 / all 1>, %d, %d, %d)' % (
+        iso.version_name(version), size, size, mask), detail='(row, col, got, want): %r' % (bad[:5],))
+
+
+def _candidates(version, data_fill):
+    size = iso.symbol_size(version)
+    fm = _layout.function_map(version)
+    base = _function_matrix(version)
+    k = 0
+    for i in range(size):
+        for j in range(size):
+            if fm[(i, j)][0] == _layout.DATA:
+                base[i][j] = data_fill[k % len(data_fill)]
+                k += 1
+    out = []
+    for mask in range(_layout.n_masks(version)):
+        m = [list(r) for r in base]
+        for (i, j), (kind, val) in fm.items():
+            if kind == _layout.DATA and _layout.mask_condition_for(version, mask, i, j):
+                m[i][j] ^= 1
+        out.append(m)
+    return base, out
+
+
+def replay_selection(model, obligation, micro):
+    import random
+    rnd = random.Random(1)
+    for version in ((iso.M2, iso.M4) if micro else (1, 2, 3)):
+        size = iso.symbol_size(version)
+        for t in range(40):
+            fill = [rnd.randrange(2) for _ in range(257)]
+            base, cands = _candidates(version, fill)
+            if micro:
+                scores = [_pen.micro_score(c) for c in cands]
+                want = scores.index(max(scores))
+            else:
+                scores = [encoder.evaluate_mask(tuple(bytearray(r) for r in c), size, size) for c in cands]
+                want = scores.index(min(scores))
+            got, out = encoder.find_and_apply_best_mask(tuple(bytearray(r) for r in base), size, size)
+            if got != want or [list(r) for r in out] != cands[want]:
+                return dict(confirmed=True, call='find_and_apply_best_mask(<random v%s symbol>)' % iso.version_name(version),
+                            detail='returned pattern %r, scores of the candidates %r' % (got, scores))
+    return dict(confirmed=False, detail='selection agrees with first-best on 200 random symbols')
+
+
+def replay_micro_score(model, obligation, version):
+    import random
+    rnd = random.Random(2)
+    size = iso.symbol_size(version)
+    for t in range(200):
+        m = [[rnd.randrange(2) for _ in range(size)] for _ in range(size)]
+        got = encoder.evaluate_micro_mask(tuple(bytearray(r) for r in m), size, size)
+        if got != _pen.micro_score(m):
+            return dict(confirmed=True, call='evaluate_micro_mask(<random %dx%d>)' % (size, size), detail='real %r, ISO %r' % (got, _pen.micro_score(m)))
+    return dict(confirmed=False, detail='agrees on 200 random matrices')
+
+
+def replay_n4(model, obligation, **kw):
+    size, dark = int(model['size']), int(model['dark'])
+    m = [bytearray(size) for _ in range(size)]
+    k = 0
+    # spread the dark modules so that N4 is read from a real call
+    for i in range(size):
+        for j in range(size):
+            if k < dark:
+                m[i][j] = 1
+                k += 1
+    got = encoder.mask_scores(tuple(m), size, size)[3]
+    want = _pen.n4_from_count(dark, size)
+    return dict(confirmed=got != want, call='mask_scores(<%dx%d with %d dark modules>)[3]' % (size, size, dark), detail='real N4 %r, ISO %r' % (got, want))
+
+
+def replay_glue(model, obligation, version):
+    """call the real encode() natively with every stage wrapped by a recorder and
+    compare the order / key arguments of the stages"""
+    names = ['boost_error_level', 'write_segment', 'write_terminator', 'write_padding_bits', 'write_pad_codewords',
+             'make_final_message', 'make_matrix', 'add_finder_patterns', 'add_alignment_patterns', 'add_codewords',
+             'find_and_apply_best_mask', 'add_format_info', 'add_version_info']
+    log = []
+    saved = {n: getattr(encoder, n) for n in names}
+
+    def wrap(n, f):
+        def g(*a, **k):
+            rec = dict(name=n)
+            if n in ('write_terminator', 'write_padding_bits', 'write_pad_codewords'):
+                rec['len_buff'] = len(a[0])
+                rec['length_arg'] = a[-1]
+            if n in ('add_format_info', 'make_final_message'):
+                rec['error'] = a[2] if n == 'add_format_info' else a[1]
+            r = f(*a, **k)
+            if n == 'boost_error_level':
+                rec['result'] = r
+            if n == 'find_and_apply_best_mask':
+                rec['mask'] = r[0]
+            if n == 'add_format_info':
+                rec['mask_arg'] = a[3]
+            log.append(rec)
+            return r
+        return g
+    for n in names:
+        setattr(encoder, n, wrap(n, saved[n]))
+    try:
+        vname = iso.version_name(version)
+        content = '1234' if version < 1 else 'AB12'
+        level = None if version == iso.M1 else 'L'
+        code = encoder.encode(content, error=level, version=vname, boost_error=True)
+    except Exception as ex:
+        return dict(confirmed=None, detail='encode raised %r' % (ex,))
+    finally:
+        for n in names:
+            setattr(encoder, n, saved[n])
+    order = [r['name'] for r in log if r['name'] != 'write_segment']
+    want = names[:1] + names[2:]
+    problems = []
+    if order != want:
+        problems.append('stage order %r, required %r' % (order, want))
+    d = {r['name']: r for r in log}
+    for n in ('write_terminator', 'write_padding_bits', 'write_pad_codewords'):
+        if n in d and d[n]['len_buff'] != d[n]['length_arg']:
+            problems.append('%s called with length %r, buffer holds %r bits' % (n, d[n]['length_arg'], d[n]['len_buff']))
+    used = d.get('boost_error_level', {}).get('result')
+    for n in ('make_final_message', 'add_format_info'):
+        if n in d and 'boost_error_level' in d and d[n]['error'] != used:
+            problems.append('%s uses level %r, boosted level is %r' % (n, d[n]['error'], used))
+    if 'add_format_info' in d and 'find_and_apply_best_mask' in d and d['add_format_info']['mask_arg'] != d['find_and_apply_best_mask']['mask']:
+        problems.append('format information written for mask %r, mask applied %r' % (d['add_format_info']['mask_arg'], d['find_and_apply_best_mask']['mask']))
+    return dict(confirmed=bool(problems), call='encoder.encode(%r, error=%r, version=%r) with recorded stages' % (content, level, vname),
+                detail='; '.join(problems) or 'stage order and arguments as required')
+
+
+# ---------------------------------------------------------------- C11 replay
+def replay_classify(model, obligation, version, scale, border):
+    from segno import utils
+    size = iso.symbol_size(version)
+    fm = _layout.function_map(version)
+    bad = []
+    names = {_layout.FINDER_K: 'FINDER_PATTERN', _layout.TIMING: 'TIMING', _layout.ALIGNMENT: 'ALIGNMENT_PATTERN',
+             _layout.FORMAT: 'FORMAT', _layout.VERSION: 'VERSION', _layout.DATA: 'DATA'}
+    for fill in (0, 1):
+        m = tuple(bytearray(size) for _ in range(size))
+        for (i, j), (kind, val) in fm.items():
+            m[i][j] = val if val is not None else fill
+        b = border if border is not None else (2 if version < 1 else 4)
+        out = [list(r) for r in utils.matrix_iter_verbose(m, (size, size), scale=scale, border=border)]
+        for y, row in enumerate(out):
+            for x, got in enumerate(row):
+                i, j = y // scale - b, x // scale - b
+                if not (0 <= i < size and 0 <= j < size):
+                    want = consts.TYPE_QUIET_ZONE
+                else:
+                    kind, val = fm[(i, j)]
+                    if kind == _layout.SEPARATOR:
+                        want = consts.TYPE_SEPARATOR
+                    elif kind == _layout.DARK:
+                        want = consts.TYPE_DARKMODULE
+                    else:
+                        want = getattr(consts, 'TYPE_%s_%s' % (names[kind], 'DARK' if m[i][j] else 'LIGHT'))
+                if got != want and (i, j, got, want) not in bad:
+                    bad.append((i, j, got, want))
+    return dict(confirmed=bool(bad), call='utils.matrix_iter_verbose(<valid v%s symbol>, scale=%r, border=%r)' % (iso.version_name(version), scale, border),
+                detail='(row, col, reported type, ISO type): %r' % (bad[:4],))
